@@ -4,7 +4,8 @@
    are satisfiable (C12_eval); that premise cannot be dropped (C12_eval_needs_sat).  That the children of a real
    SolverComposite are such groups (pairwise variable-disjoint, together equivalent to what was added) is checked as an
    invariant after every step of random histories, and every answer is compared with enumeration (testing). *)
-Require Import CV.Model.PyPrelude CV.Model.Ast CV.Model.Frontend CV.Proofs.CompositeSound CV.Proofs.SplitComposite.
+Require Import CV.Model.PyPrelude CV.Model.Ast CV.Model.Frontend CV.Proofs.CompositeSound CV.Proofs.SplitComposite
+               CV.Model.CompCache CV.Proofs.CompCacheSound.
 From Coq Require Import ZArith Bool List.
 Import ListNotations.
 
@@ -40,3 +41,16 @@ Theorem C12_split_sat : forall l,
   (exists rho, models rho (concat gs) = true) <-> (forall g, In g gs -> exists rho, models rho g = true).
 Proof. exact split_sat_iff. Qed.
 Print Assumptions C12_split_sat.
+
+(* the cache of merged child solvers (CompositedCacheMixin): after a child is stored, every merged solver that stays cached
+   still combines current children only -- with the invalidation rule as repaired; the rule of the pinned code (by the
+   requested names only) leaves a stale entry behind (the defect the thorough tier found) *)
+Theorem C12_cache_valid : forall kids cache ns,
+  Forall (valid kids) cache -> Forall (valid (store_child kids ns)) (remove_cached cache (cvars ns)).
+Proof. exact store_keeps_cache_valid. Qed.
+Print Assumptions C12_cache_valid.
+
+Theorem C12_cache_pinned_refuted : exists kids cache ns,
+  Forall (valid kids) cache /\ ~ Forall (valid (store_child kids ns)) (remove_cached_pinned cache (cvars ns)).
+Proof. exact pinned_invalidation_refuted. Qed.
+Print Assumptions C12_cache_pinned_refuted.
